@@ -128,7 +128,7 @@ func cmdCheck(args []string) {
 	t0 := time.Now()
 	maxRank, timeout := 4, 10
 	if *tier == "thorough" {
-		maxRank, timeout = 6, 60
+		maxRank, timeout = 5, 60
 	}
 	tagSets := []string{"verif"}
 	P, err := LoadProg(*repo, tagSets[0])
